@@ -1437,8 +1437,18 @@ class SymX:
                     s_i = s_i.cond(("match", v, pr, i, arm["pat"], earlier[:], earlier_guarded[:], poss, earlier_nodes[:]))
                 self.bind(arm["pat"], v, s_i)
                 if "guard" in arm:
-                    for s_g, g in self.ev(arm["guard"], s_i):
-                        outs.extend(self.ev(arm["body"], s_g.cond(("guard", g, True))))
+                    gs = self.ev(arm["guard"], s_i)
+                    for s_g, g in gs:
+                        pol_g = True
+                        while isinstance(g, tuple) and g[0] == "un" and g[1] == "Not":
+                            g, pol_g = g[2], not pol_g
+                        outs.extend(self.ev(arm["body"], s_g.cond(("guard", g, pol_g))))
+                    if len(gs) == 1 and (ap.get("k") == "wild" or (ap.get("k") == "bind" and "sub" not in ap)):
+                        # `x if g(x) => a, _ => b`: the later arms are reached exactly when the guard of this catch-all arm failed
+                        g0, pol0 = gs[0][1], True
+                        while isinstance(g0, tuple) and g0[0] == "un" and g0[1] == "Not":
+                            g0, pol0 = g0[2], not pol0
+                        s = s.cond(("guard", g0, not pol0))
                 else:
                     outs.extend(self.ev(arm["body"], s_i))
                 (earlier_guarded if "guard" in arm else earlier).append(pr)
